@@ -13,15 +13,18 @@ open Sonic.Proofs.MergeSchema Sonic.Proofs.MergeUpdate
 
 /-! ## denotation of a lazy tree -/
 
-/-- a raw slice as a value: a JSON text (by the spec reader) that starts at the value's first byte -/
+/-- a raw slice as a value: a string of bytes that is a JSON text (by the spec reader) and starts at the value's
+    first byte -/
 def rawDen (bs : List Nat) : Option JVal :=
   match bs with
   | [] => none
   | c :: _ =>
     if isWs c then none else
-    match parse bs with
-    | .ok v => some v
-    | .error _ => none
+    if bs.all (· < 256) then
+      match parse bs with
+      | .ok v => some v
+      | .error _ => none
+    else none
 
 mutual
 def den : LNode → Option JVal
@@ -61,7 +64,7 @@ end
 /-- one-level correctness of `ParseLazy` on a slice that spells an object (proved from the skipping primitives'
     specifications in `Props/C20.lean`'s last section / assumed there as a named hypothesis) -/
 def ReparseOK (W : Nat) (junk : Nat → Nat → Nat) : Prop :=
-  ∀ (bs : List Nat) (v : JVal), parse bs = .ok v → bs.head? = some 0x7B →
+  ∀ (bs : List Nat) (v : JVal), (∀ x ∈ bs, x < 256) → parse bs = .ok v → bs.head? = some 0x7B →
     ∃ kvs, parseLazy W junk bs = .ok (.ok (.obj kvs)) ∧ den (.obj kvs) = some v
 
 /-! ## a text whose first byte is not `{` (and not whitespace) does not spell an object -/
@@ -175,7 +178,7 @@ theorem find_cases (k : List Nat) : ∀ (lt : LMembers) (tkvs : Members), denMem
 /-! ## `UpdateNodeLazy` on lazy trees -/
 
 theorem rawDen_inv {bs : List Nat} {v : JVal} (h : rawDen bs = some v) :
-    ∃ c rest, bs = c :: rest ∧ isWs c = false ∧ parse bs = .ok v := by
+    ∃ c rest, bs = c :: rest ∧ isWs c = false ∧ parse bs = .ok v ∧ ∀ x ∈ bs, x < 256 := by
   unfold rawDen at h
   cases bs with
   | nil => simp at h
@@ -185,9 +188,17 @@ theorem rawDen_inv {bs : List Nat} {v : JVal} (h : rawDen bs = some v) :
     · simp [hw] at h
     · have hw' : isWs c = false := by simpa using hw
       simp only [hw', Bool.false_eq_true, if_false] at h
-      cases hp : parse (c :: rest) with
-      | error e => simp [hp] at h
-      | ok v' => simp only [hp, Option.some.injEq] at h; exact ⟨c, rest, rfl, hw', h ▸ rfl⟩
+      by_cases hb : (c :: rest).all (· < 256) = true
+      · rw [if_pos hb] at h
+        cases hp : parse (c :: rest) with
+        | error e => simp [hp] at h
+        | ok v' =>
+          simp only [hp, Option.some.injEq] at h
+          refine ⟨c, rest, rfl, hw', h ▸ rfl, ?_⟩
+          intro x hx
+          have := List.all_eq_true.mp hb x hx
+          simpa using this
+      · rw [if_neg hb] at h; cases h
 
 /-- the re-parse step: same denotation, and afterwards the node is an object node exactly when it denotes an
     object -/
@@ -197,10 +208,10 @@ theorem reparse_den {W : Nat} {junk : Nat → Nat → Nat} (hR : ReparseOK W jun
   cases n with
   | raw bs =>
     rw [den] at hd
-    obtain ⟨c, rest, rfl, hw, hp⟩ := rawDen_inv hd
+    obtain ⟨c, rest, rfl, hw, hp, hb⟩ := rawDen_inv hd
     by_cases hc : c = 0x7B
     · subst hc
-      obtain ⟨kvs, h1, h2⟩ := hR _ v hp rfl
+      obtain ⟨kvs, h1, h2⟩ := hR _ v hb hp rfl
       refine ⟨.obj kvs, ?_, h2, fun _ _ => ⟨kvs, rfl⟩⟩
       simp [reparse, h1, bind, Except.bind, pure, Except.pure]
     · refine ⟨.raw (c :: rest), ?_, by rw [den]; exact hd, ?_⟩
